@@ -498,6 +498,18 @@ var c11P1Exempt = map[string]string{
 func runC11P1(c *Ctx) {
 	p := c.P
 	n := 0
+	validated := runVNGMetadataValidated(c, "C11-V1")
+	// a site whose names / field lists come from VNG metadata is safe if the metadata was validated
+	fromVNGMeta := func(fn *ssa.Function) bool {
+		top := fn
+		for top.Parent() != nil {
+			top = top.Parent()
+		}
+		if p.PkgOf(top) == "runtime/vcache" {
+			return true
+		}
+		return p.PkgOf(top) == "vng" && top.Name() == "Type" && top.Signature.Recv() != nil
+	}
 	for _, fn := range p.FuncsIn(c11P1Pkgs...) {
 		name := constructName(fn)
 		for _, b := range fn.Blocks {
@@ -514,6 +526,10 @@ func runC11P1(c *Ctx) {
 						c.OK("C11-P1", construct, x.Pos(), "exempt: "+why)
 						continue
 					}
+					if validated && fromVNGMeta(fn) {
+						c.OK("C11-P1", construct, x.Pos(), "cannot fail: the VNG metadata it is built from was checked with the same lookup when the object was opened (C11-V1)")
+						continue
+					}
 					c.Fail("C11-P1", construct, x.Pos(), "the error of "+src+" depends on input data (a type name / field list taken from the file) and is raised as a panic instead of being returned to the reader's caller")
 				case *ssa.Call:
 					if calleeName(x.Common()) == "(*super.Context).MustLookupTypeRecord" {
@@ -521,6 +537,10 @@ func runC11P1(c *Ctx) {
 						construct := name + " -> MustLookupTypeRecord"
 						if fieldsAreLiteral(x.Call.Args[1]) {
 							c.OK("C11-P1", construct, x.Pos(), "field list is a literal of the program, not input data")
+							continue
+						}
+						if validated && fromVNGMeta(fn) {
+							c.OK("C11-P1", construct, x.Pos(), "cannot fail: the VNG metadata it is built from was checked with LookupTypeRecord when the object was opened (C11-V1)")
 							continue
 						}
 						c.Fail("C11-P1", construct, x.Pos(), "MustLookupTypeRecord panics on duplicate field names, and the field list here is built from input data")
